@@ -13,6 +13,7 @@ import (
 	"github.com/ethereum/go-ethereum/params"
 	"github.com/holiman/uint256"
 	ctrlertypes "github.com/rigochain/rigo-go/ctrlers/types"
+	"github.com/rigochain/rigo-go/ledger"
 	"github.com/rigochain/rigo-go/types"
 	"github.com/rigochain/rigo-go/types/bytes"
 	"github.com/rigochain/rigo-go/types/xerrors"
@@ -328,6 +329,7 @@ func (ctrler *EVMCtrler) Commit() ([]byte, int64, xerrors.XError) {
 	if err != nil {
 		panic(err)
 	}
+	ledger.VerifPoint("evm.trie.Commit")
 	if err := ctrler.stateDBWrapper.Database().TrieDB().Commit(rootHash, true, nil); err != nil {
 		panic(err)
 	}
@@ -337,6 +339,7 @@ func (ctrler *EVMCtrler) Commit() ([]byte, int64, xerrors.XError) {
 	batch := ctrler.metadb.NewBatch()
 	batch.Set(lastBlockHeightKey, []byte(strconv.FormatInt(ctrler.lastBlockHeight, 10)))
 	batch.Set(blockKey(ctrler.lastBlockHeight), ctrler.lastRootHash)
+	ledger.VerifPoint("evm.metadb.batch")
 	batch.WriteSync()
 	batch.Close()
 
